@@ -134,6 +134,10 @@ class P:
         elif j < 0.42:
             c["step"] = rng.choice(BAD_STEP)
             bad = True
+        if rng.random() < 0.1:
+            # a flag given with an EMPTY value is a malformed duration, not an absent flag
+            c[rng.choice(["step", "since"])] = ""
+            bad = True
         if bad:
             c["expect"] = "reject"
         elif start is not None:
